@@ -98,8 +98,6 @@ NEW_STATES = ["Q", "U", "G", "K"]
 NEW_DERIVED = ["dd1", "dd2", "dd3"]
 FORMATS = ["list", "ndarray", "tuples", "tuples_perm", "dict_full", "dict_subset", "dict_symbol"]
 CFG = os.environ.get("VERIF_C08_CFG", "source")
-# argument forms the tree AS FOUND rejects (exception class per form): tagged, not judged
-FORM_ERRORS_AS_FOUND = {}
 
 
 # ---------------------------------------------------------------------------------------------------------------
@@ -416,6 +414,14 @@ class Fresh:
             vals[(name, pt)] = call(m, name, x, float(t))
         return vals[(name, pt)]
 
+    def value_form(self, ver, pv, name, xvals, t, form, tform):
+        """the reference called with the state / time in the given argument form (cached)"""
+        m, vals = self.model(ver, pv)
+        key = (name, 2, form, tform)
+        if key not in vals:
+            vals[key] = call(m, name, make_form(form, [xvals[str(s)] for s in m.state_list]), make_tform(tform, t))
+        return vals[key]
+
     def free_symbols(self, ver, pv, name):
         m, _ = self.model(ver, pv)
         obj = getattr(m, GENERATOR[name])()
@@ -684,7 +690,10 @@ def run_case(case):
                 internal["flags_agree" if fl == {kk: bool(vv) for kk, vv in st["flags"].items()} else "flags_differ"] += 1
             except Exception:
                 pass
-            # the same evaluator at a SECOND point, state and time passed in the argument form of the round
+            # the same evaluator at a SECOND point, state and time passed in the argument form of the round.  The property
+            # compares with a freshly constructed model: the reference is called with an equal container of the SAME form.
+            # (A value that depends on the form alone - the reference called with a list of floats returns something else -
+            # and a container written to by the call are side observations: TAGS, not violations of C08.)
             if x2vals is not None and not stale:
                 counts["second_point"] += 1
                 vals2 = [x2vals[str(s)] for s in model.state_list]
@@ -693,16 +702,15 @@ def run_case(case):
                 kp = []
                 got2 = call(model, e, arg, targ, kp)
                 kept += [("round %d observation #%d %s at the second point" % (k, j, e), e) + z for z in kp]
-                want2 = fresh[i].value(ver, pvk, e, x2vals, t2, pt=2)
                 if frozen(arg) != snap:
-                    add_violation("argument-modified:%s:%s" % (e, form), "%s modified the state container it was given" % e,
-                                  "%s: passed %s, afterwards %s" % (where, snap, frozen(arg)))
-                if got2[0] == "err" and want2[0] == "ok" and got2[1] in FORM_ERRORS_AS_FOUND.get(form, ()):
-                    tags.append("form_not_supported:%s:%s" % (form, got2[1]))
-                elif not same(got2, want2):
+                    tags.append("side-effect:argument-modified:%s" % form)
+                want2 = fresh[i].value_form(ver, pvk, e, x2vals, t2, form, tform)
+                if not same(got2, want2):
                     add_violation("second-point:%s:state=%s:t=%s%s" % (e, form, tform, ":raises:%s" % got2[1] if got2[0] == "err" else ""),
-                                  "%s at a second point (state as %s, time as %s) differs from a freshly constructed model called with a list of floats" % (e, form, tform),
+                                  "%s at a second point (state as %s, time as %s) differs from a freshly constructed model given the same arguments" % (e, form, tform),
                                   "%s: x2=%s t2=%s got %s ; fresh model gives %s" % (where, vals2, t2, show(got2), show(want2)))
+                elif not same(want2, fresh[i].value(ver, pvk, e, x2vals, t2, pt=2)):
+                    tags.append("form-dependent-value:%s" % form + (":raises:%s" % want2[1] if want2[0] == "err" else ""))
         # every array returned during this round must still hold the value it was returned with
         for label, e, raw, snap in kept:
             counts["kept"] += 1
